@@ -116,6 +116,12 @@ fn try_send_confirm(slot: &mut ChannelSlot, confirm: Confirm) {
 // When we set up a blocked connection listener, it's just a crossbeam channel. If it gets
 // dropped, we don't want to error; just start discarding blocked notifications.
 fn try_send_blocked(slot: &mut Channel0Slot, note: ConnectionBlockedNotification) {
+    // A listener registered while we were busy reading is still waiting in its queue (it
+    // does not come in through the socket); the notification at hand was sent after that
+    // registration had returned, so it is meant for the new listener.
+    while let Ok(tx) = slot.set_blocked_rx.try_recv() {
+        slot.blocked_tx = Some(tx);
+    }
     if let Some(tx) = &slot.blocked_tx {
         match tx.try_send(note) {
             Ok(()) => (),
